@@ -19,7 +19,7 @@ import ScVerif.C09.Subs
                                   (cumulative number of takes = calls of the equivalence), then `|` and the values
                                   a consumer draining to quiescence receives
 * `crun <kind,…> <seeds> <move>*` several subscribers on one bus (`sysStep`), each subscribed with the seed changes
-                                  `<seeds>` (`;`-separated, `-` = none) and scheduled greedily: kinds `pull` /
+                                  `<seeds>` (`;`-separated, `-` = none) and scheduled greedily: kinds `pull` / `pull!` (updates only: no seeds) /
                                   `id:<i>` (PullID); moves `s:<change>` (Bus.Send) / `d<k>` (consumer k receives)
                                   → per move `[<out>@]<seen0>/<seen1>/…`, then per subscriber `|` and its drain
 * `brun <seed> <move>*`           one backpressured subscriber (`bstep`) and ONE writer: moves `w` (the writer starts its
@@ -118,8 +118,10 @@ abbrev SSub := Sub String String
 
 def parseKindSub? (sd : List SChange) (s : String) : Option SSub :=
   if s = "pull" then some (Sub.init none sd)
+  else if s = "pull!" then some (Sub.init none [])          -- WithUpdatesOnly: no seeds
   else match s.splitOn ":" with
     | ["id", i] => if i = "" then none else some (Sub.init (some i) sd)
+    | ["id!", i] => if i = "" then none else some (Sub.init (some i) [])
     | _ => none
 
 inductive CM where | s (e : SChange) | d (k : Nat)
